@@ -425,7 +425,7 @@ def c12_run(tier, seed):
     cfgs = [vlib.Config('Et', 3, 1, '00000', st='std::uint8_t'), vlib.Config('Tr', 0, 3, '00000', st='std::uint8_t'),
             vlib.Config('En', 2, 2, '00000', st='std::uint8_t', ndebug=False)]
     if tier == 'thorough':
-        cfgs += [vlib.Config('Enn', 1, 3, '01010', st='std::uint8_t'), vlib.Config('Tr', 3, 1, '00000', st='std::uint16_t')]
+        cfgs += [vlib.Config('Enn', 1, 3, '01010', st='std::uint8_t')]
     return vlib.differential(tier, seed, cfgs=cfgs, case_fn=lambda c, t, sd: gen_cases.narrow_cases(c.N, c.M, c.max_size(), t), label='c12')
 
 
@@ -440,6 +440,17 @@ def c12_extra(tier, seed, lean):
         if ch in ('val', 'shape', 'exc', 'ledger'):
             for d in lst:
                 res['corr'].append(dict(d, channel=ch, why='narrow size_type: implementation and model disagree on channel ' + ch))
+    if tier == 'thorough':
+        # a 16-bit size_type: harness only (monitors and sanitizers), a handful of calls at the limit
+        c16 = vlib.Config('Tr', 3, 1, '00000', st='std::uint16_t')
+        mon = vlib.monitor_only([c16], lambda c: gen_cases.narrow_big_cases(c.N, c.M, c.max_size()), 'c12u16')
+        for q in ('C12', 'C02', 'C04'):
+            for w in mon['w'].get(q, []):
+                res['w'].append(dict(w, msg='C12 (16-bit size_type) ' + (w['msg'][4:] if q != 'C12' else w['msg'])))
+        for c in mon['crashes']:
+            res['w'].append(dict(msg='C12 the implementation %s with a 16-bit size_type: %s' % ('called std::terminate' if c['kind'] == 'terminate' else 'crashed (' + c['kind'] + ')', c['detail'][-400:].replace('\n', ' ')),
+                                 op=c['case'][-1][:80] if c['case'] else '-', config=c['config'], case=[l[:200] for l in c['case']], impl=''))
+        res['evaluations'] += mon['lines']
     res['w'] += core['w'].get('C12', [])
     for p in ('C02', 'C04'):
         for w in core['w'].get(p, []):
